@@ -7,23 +7,152 @@ import (
 	"gobmc/vrt"
 )
 
+// liveCount returns how many registered instances still have a live context, and the index of
+// the last such instance.
+func (p *rtProbe) liveCount() (n, last int) {
+	vrt.Atomic(func() {
+		for i := 0; i < p.entered && i < 6; i++ {
+			if p.ctxs[i].Err() == nil {
+				n++
+				last = i
+			}
+		}
+	})
+	return
+}
+
 // H_C05_TwoDrivers: SetState races SetContext;ClearContext on a StateRoutineContainer. No call
-// may panic, and at quiescence (context cleared) no instance with a live context remains.
+// may panic; superseded instances are cancelled before a successor runs; and once the context
+// has been cleared and everything is quiet no instance with a live context remains and nobody
+// is left blocked.
 func H_C05_TwoDrivers() {
-	var live int
-	fn := func(ctx context.Context, st int) error {
-		vrt.Atomic(func() { live++ })
-		<-ctx.Done()
-		vrt.Atomic(func() { live-- })
-		return context.Canceled
-	}
+	var p rtProbe
 	k := routine.NewStateRoutineContainer[int](nil)
-	k.SetStateRoutine(fn)
+	k.SetStateRoutine(func(ctx context.Context, st int) error {
+		p.enter(ctx, st)
+		<-ctx.Done()
+		p.leave()
+		return context.Canceled
+	})
 	ctxA, cancelA := context.WithCancel(context.Background())
 	_ = cancelA
 	vrt.Go("set-state", func() { k.SetState(1) })
 	vrt.Go("set-ctx", func() {
 		k.SetContext(ctxA, false)
 		k.ClearContext()
+	})
+	vrt.AtQuiescence(func() {
+		n, _ := p.liveCount()
+		vrt.Assert(n == 0, "live-instance-after-clear-context")
+	})
+}
+
+// H_C05_StateVsRestart: SetState(2) races RestartRoutine while state 1 is running; afterwards
+// the only live instance runs with the stored state and derives from the current context.
+func H_C05_StateVsRestart() {
+	var p rtProbe
+	k := routine.NewStateRoutineContainer[int](nil)
+	k.SetStateRoutine(func(ctx context.Context, st int) error {
+		p.enter(ctx, st)
+		<-ctx.Done()
+		p.leave()
+		return context.Canceled
+	})
+	ctxA, cancelA := context.WithCancel(context.Background())
+	k.SetContext(ctxA, false)
+	k.SetState(1)
+	vrt.Go("set-state", func() { k.SetState(2) })
+	vrt.Go("restart", func() { k.RestartRoutine() })
+	vrt.AtQuiescence(func() {
+		n, last := p.liveCount()
+		vrt.Assert(n <= 1, "two-live-instances")
+		if n == 1 {
+			var st int
+			vrt.Atomic(func() { st = p.states[last] })
+			vrt.Assert(st == k.GetState() && st == 2, "survivor-has-stale-state")
+		}
+		// the survivor derives from the current context: cancelling it ends everything
+		cancelA()
+		vrt.AtQuiescence(func() {
+			n, _ := p.liveCount()
+			vrt.Assert(n == 0, "survivor-not-derived-from-current-context")
+		})
+	})
+}
+
+// H_C05_Survivor: single driver, symbolic script of two operations after SetState(1); at
+// quiescence at most one live instance exists, it has the latest state and context.
+func H_C05_Survivor() {
+	var p rtProbe
+	k := routine.NewStateRoutineContainer[int](nil)
+	k.SetStateRoutine(func(ctx context.Context, st int) error {
+		p.enter(ctx, st)
+		<-ctx.Done()
+		p.leave()
+		return context.Canceled
+	})
+	ctxA, cancelA := context.WithCancel(context.Background())
+	ctxB, cancelB := context.WithCancel(context.Background())
+	_ = cancelA
+	k.SetContext(ctxA, false)
+	k.SetState(1)
+	useB := false
+	hasCtx := true
+	for i := 0; i < 2; i++ {
+		var op int
+		if i == 0 {
+			op = vrt.Int("op0", 0, 4)
+		} else {
+			op = vrt.Int("op1", 0, 4)
+		}
+		n := p.snapshot()
+		switch op {
+		case 0:
+			if _, _, reset, _ := k.SetState(2); reset {
+				p.cancelledBefore(n, "setstate")
+			}
+		case 1:
+			if k.RestartRoutine() {
+				p.cancelledBefore(n, "restart")
+			}
+		case 2:
+			if k.SetContext(ctxB, false) {
+				p.cancelledBefore(n, "setcontext")
+			}
+			useB, hasCtx = true, true
+		case 3:
+			if k.ClearContext() {
+				p.cancelledBefore(n, "clearcontext")
+			}
+			hasCtx = false
+		default:
+			if _, _, reset, _ := k.SetState(0); reset {
+				p.cancelledBefore(n, "setstate-empty")
+			}
+		}
+	}
+	vrt.AtQuiescence(func() {
+		n, last := p.liveCount()
+		st := k.GetState()
+		if !hasCtx || st == 0 {
+			vrt.Assert(n == 0, "live-instance-without-context-or-state")
+		}
+		vrt.Assert(n <= 1, "two-live-instances")
+		if n == 1 {
+			var ist int
+			vrt.Atomic(func() { ist = p.states[last] })
+			vrt.Assert(ist == st, "survivor-has-stale-state")
+		}
+		if useB {
+			cancelB()
+		} else {
+			cancelA()
+		}
+		vrt.AtQuiescence(func() {
+			n, _ := p.liveCount()
+			vrt.Assert(n == 0, "survivor-not-derived-from-current-context")
+			cancelA()
+			cancelB()
+		})
 	})
 }
